@@ -15,7 +15,6 @@ import (
 	"fmt"
 	"os"
 	"path/filepath"
-	"runtime"
 	"sort"
 	"strings"
 	"testing"
@@ -48,6 +47,7 @@ type c05Interp struct {
 	rnames  []string
 	files   []*os.File
 	caseOps []string
+	pool    *prefixToHashes
 }
 
 func (in *c05Interp) reset() {
@@ -61,7 +61,6 @@ func (in *c05Interp) reset() {
 	if in.w1 != nil && !in.sealed {
 		in.w1.Close()
 	}
-	hadBig := in.w2 != nil
 	in.w2, in.w1 = nil, nil
 	in.meta2 = indexmeta.Meta{}
 	in.meta1 = map[string]string{}
@@ -72,11 +71,25 @@ func (in *c05Interp) reset() {
 		os.Remove(in.path)
 		in.path = ""
 	}
-	if hadBig {
-		// the v2 writer reserves 65 536 x 16 000 words of capacity: collect it before the next one is made.
-		// (Not debug.FreeOSMemory: re-faulting 8 GB costs ~15 s of system time per writer.)
-		runtime.GC()
+}
+
+// newV2 makes a current-format writer.  NewWriter reserves 65 536 x 16 000 words of capacity (8.4 GB, zeroed and
+// therefore resident from the second writer of a process on: ~5 s and 8 GB each).  The first writer of the run comes
+// from NewWriter; later ones are built around the same bucket array with every bucket cut back to length 0, which is
+// the state NewWriter returns (65 536 empty slices with spare capacity).  Put / Has / Seal are the real ones.
+func (in *c05Interp) newV2(path string) (*Writer, error) {
+	if in.pool == nil {
+		wr, err := NewWriter(path)
+		if err != nil {
+			return nil, err
+		}
+		in.pool = wr.prefixToHashes
+		return wr, nil
 	}
+	for i := range in.pool {
+		in.pool[i] = in.pool[i][:0]
+	}
+	return &Writer{path: path, prefixToHashes: in.pool}, nil
 }
 
 func c05Sig(hexs string) (sig [64]byte, ok bool) {
@@ -141,7 +154,7 @@ func (in *c05Interp) exec(line string) string {
 		in.fmt = w[1]
 		switch w[1] {
 		case "v2":
-			wr, err := NewWriter(in.path)
+			wr, err := in.newV2(in.path)
 			if err != nil {
 				return "err"
 			}
@@ -526,10 +539,8 @@ func (g *c05Gen) generate(thorough bool) {
 		one := g.sig(0x0201)
 		g.buildCase("single", format, 1, [][64]byte{one}, 0, 10)
 		g.buildCase("same-signature-repeated", format, 2, [][64]byte{one, one, one, one, one}, 40, 10)
-		if format == "v1" { // (v2: the `shapes` case has the same populations; each v2 writer reserves 8 GB of capacity)
-			a, b := g.sig(0xffff), g.sig(0xffff)
-			g.buildCase("pair-one-prefix", format, 0, [][64]byte{a, b, g.sig(0x0000)}, 1, 10)
-		}
+		a, b := g.sig(0xffff), g.sig(0xffff)
+		g.buildCase("pair-one-prefix", format, 0, [][64]byte{a, b, g.sig(0x0000)}, 1, 10)
 	}
 	for _, format := range []string{"v2", "v1"} {
 		// metadata of every shape the header can hold (v2: lengths 0..255, the 256-byte key / value is refused by
@@ -551,7 +562,7 @@ func (g *c05Gen) generate(thorough bool) {
 		g.emit("seal")
 		g.probes("has", ms, 1, []uint16{c05Prefix(ms[0])}, 5)
 	}
-	k := 10
+	k := 12
 	if thorough {
 		k = 14
 	}
@@ -566,15 +577,15 @@ func (g *c05Gen) generate(thorough bool) {
 		g.buildCase("prefix-rows", "v1", 1, ms, 10, 60)
 		g.buildCase("prefix-rows", "v2", 1, ms, 10, 60)
 	}
-	n := 12000
+	n := 20000
 	if thorough {
 		n = 40000
 	}
 	g.buildCase("random-crowded", "v1", 4, g.randomMembers(n, 150), n/20, 300)
 	g.buildCase("random-crowded", "v2", 255, g.randomMembers(n, 150), n/20, 300)
 	g.buildCase("random-uniform", "v1", 0, g.randomMembers(n, 0), n/50, 300)
+	g.buildCase("random-uniform", "v2", 0, g.randomMembers(n, 0), n/50, 300)
 	if thorough {
-		g.buildCase("random-uniform", "v2", 0, g.randomMembers(n, 0), n/50, 300)
 		// ~200 000 signatures: 150 000 uniform over all prefixes (populations 0..~12) + 50 000 in 40 crowded prefixes
 		big := append(g.randomMembers(150000, 0), g.randomMembers(50000, 40)...)
 		g.buildCase("large", "v2", 3, big, 2000, 2000)
@@ -587,6 +598,7 @@ func (g *c05Gen) generate(thorough bool) {
 		}
 		full = append(full, g.randomMembers(3000, 20)...)
 		g.buildCase("one-full-bucket", "v1", 1, full, 100, 300)
+		g.buildCase("one-full-bucket", "v2", 1, full, 100, 300)
 	}
 }
 
